@@ -31,7 +31,9 @@ def main():
     try:
         if a.replay:
             obj = json.load(open(a.replay))
-            ctx.prove(mod.PROPS_MODULE)
+            if hasattr(mod, "gen"):
+                mod.gen(ctx)
+            ctx.prove(mod.PROPS_MODULE, getattr(mod, "EXTRA_TARGETS", ()))
             mod.replay(ctx, obj)
         else:
             if hasattr(mod, "gen"):
